@@ -17,8 +17,7 @@ impl AdditionalLifecycleEventsSet {
 //@ open src/sources/mod.rs / impl AdditionalLifecycleEventsSet
 //@ item src/sources/mod.rs / impl AdditionalLifecycleEventsSet / fn register props=C14
 //@ spec
-        requires old(self)@.no_duplicates(),
-        ensures final(self)@.no_duplicates(),
+        ensures old(self)@.no_duplicates() ==> final(self)@.no_duplicates(),
                 old(self)@.contains(token) ==> final(self)@ == old(self)@,
                 !old(self)@.contains(token) ==> final(self)@ == old(self)@.push(token),
                 forall|x: RegistrationToken| final(self)@.contains(x) <==> (old(self)@.contains(x) || x == token),
@@ -48,10 +47,9 @@ impl AdditionalLifecycleEventsSet {
 //@ spec
         requires
             self.accepts_calls(),
-            old(additional_lifecycle_register)@.no_duplicates(),
         ensures
             // the set that drives before_sleep/before_handle_events stays duplicate free ...
-            final(additional_lifecycle_register)@.no_duplicates(),
+            old(additional_lifecycle_register)@.no_duplicates() ==> final(additional_lifecycle_register)@.no_duplicates(),
             // ... a failed registration leaves it as it was (C15) ...
             r is Err ==> final(additional_lifecycle_register)@ == old(additional_lifecycle_register)@,
             // ... and the only entry that can appear is this source's own registration token
@@ -64,9 +62,8 @@ impl AdditionalLifecycleEventsSet {
 //@ spec
         requires
             self.accepts_calls(),
-            old(additional_lifecycle_register)@.no_duplicates(),
         ensures
-            final(additional_lifecycle_register)@.no_duplicates(),
+            old(additional_lifecycle_register)@.no_duplicates() ==> final(additional_lifecycle_register)@.no_duplicates(),
             forall|x: RegistrationToken| final(additional_lifecycle_register)@.contains(x) ==>
                 old(additional_lifecycle_register)@.contains(x) || x == old(token_factory).reg(),
             forall|x: RegistrationToken| old(additional_lifecycle_register)@.contains(x) ==> final(additional_lifecycle_register)@.contains(x),
@@ -78,9 +75,10 @@ impl AdditionalLifecycleEventsSet {
 //@ spec
         requires
             self.accepts_calls(),
-            old(additional_lifecycle_register)@.no_duplicates(),
+            // registration tokens (the entries of the lifecycle set) always carry sub-id 0
+            registration_token.tok().ssub() == 0, /*@props C14,C06*/
         ensures
-            final(additional_lifecycle_register)@.no_duplicates(),
+            old(additional_lifecycle_register)@.no_duplicates() ==> final(additional_lifecycle_register)@.no_duplicates(),
             // entries of other sources are never touched
             forall|x: RegistrationToken| x != registration_token ==>
                 (final(additional_lifecycle_register)@.contains(x) <==> old(additional_lifecycle_register)@.contains(x)),
